@@ -736,7 +736,19 @@ def run(tier):
     if os.geteuid() != 0:
         ck.infra_errors.append("C19 needs root (chown of the sources to a foreign uid:gid)")
         return ck.finish(rule="not run")
-    root = tempfile.mkdtemp(prefix="c19-", dir=vlib.BUILD)
+    # B4 runs xz as an unprivileged uid: every directory above the scratch area must be searchable by others
+    def traversable(p):
+        p = os.path.realpath(p)
+        while True:
+            if not os.stat(p).st_mode & 0o001:
+                return False
+            if p == "/":
+                return True
+            p = os.path.dirname(p)
+    base = next((d for d in (vlib.BUILD, "/tmp", "/var/tmp", "/dev/shm") if os.path.isdir(d) and traversable(d)), vlib.BUILD)
+    root = tempfile.mkdtemp(prefix="c19-", dir=base)
+    if base != vlib.BUILD:
+        ck.notes.append(f"scratch directory under {base}: {vlib.BUILD} is not searchable by the unprivileged uid of part B4")
     try:
         os.chmod(root, 0o755)
         explore(ck, tier, root)
